@@ -79,6 +79,53 @@ def readAtom (s : List Char) : Option (PItem × List Char) :=
       | none => none
       | some (_, r, r3) => some (.atom lv (String.ofList l) (String.ofList op) (String.ofList r), skipWs r3)
 
+/-- BOOLOP: `\\b(or|and)\\b` at the current position -/
+def readBoolOp (s : List Char) : Option (PItem × List Char) :=
+  match s with
+  | 'a' :: 'n' :: 'd' :: r => if (r.head?.map isWord).getD false then none else some (.and_, r)
+  | 'o' :: 'r' :: r => if (r.head?.map isWord).getD false then none else some (.or_, r)
+  | _ => none
+
+mutual
+/-- `_parse_marker`: `marker_atom (BOOLOP marker_atom)*`, a FLAT list (precedence is applied later, by
+    `_build_markers`); fuel bounds the recursion (every call consumes a character) -/
+def readMarker : Nat → List Char → Option (List PItem × List Char)
+  | 0, _ => none
+  | f + 1, s =>
+    match readMAtom f s with
+    | none => none
+    | some (it, r) => readMore f [it] r
+/-- the `while tokenizer.check("BOOLOP")` loop; `acc` is reversed -/
+def readMore : Nat → List PItem → List Char → Option (List PItem × List Char)
+  | 0, _, _ => none
+  | f + 1, acc, s =>
+    match readBoolOp s with
+    | none => some (acc.reverse, s)
+    | some (op, r) =>
+      match readMAtom f r with
+      | none => none
+      | some (it, r2) => readMore f (it :: op :: acc) r2
+/-- `_parse_marker_atom`: `WS? ( WS? marker WS? ) WS?` or `WS? marker_item WS?` -/
+def readMAtom : Nat → List Char → Option (PItem × List Char)
+  | 0, _ => none
+  | f + 1, s =>
+    match skipWs s with
+    | '(' :: r =>
+      match readMarker f (skipWs r) with
+      | none => none
+      | some (its, r2) =>
+        match skipWs r2 with
+        | ')' :: r3 => some (.group its, skipWs r3)
+        | _ => none
+    | s' => readAtom s'
+end
+
+/-- `_parse_full_marker`: the whole text -/
+def readFullMarker (s : List Char) : Option (List PItem) :=
+  match readMarker (2 * s.length + 2) s with
+  | some (its, []) => some its
+  | _ => none
+
 /-- `Atom.__str__` on characters -/
 def atomStrL (a : Atom) : List Char :=
   if a.reversed then quoteL a.value.toList ++ ' ' :: a.op.reflect.str.toList ++ ' ' :: a.name.toList
